@@ -6,12 +6,14 @@
 (*   vars  what a program can keep between runs: a global scalar, an array *)
 (*         element, FS RS OFS ORS CONVFMT OFMT SUBSEP                      *)
 (*   pr    per-run state: record ($0, NF), NR, FNR, FILENAME, RSTART,      *)
-(*         RLENGTH, the main scanner, named input and output streams, CSV  *)
-(*         header names, input and output mode, exit status, value-stack   *)
-(*         pointer (pending frames), context checking                      *)
+(*         RLENGTH, the main scanner, the scanner of getline < "-", named  *)
+(*         input and output streams, CSV header names, input and output    *)
+(*         mode, exit status, value-stack pointer (pending frames), the    *)
+(*         context that governs the interpreter (polled every 1000         *)
+(*         instructions, handed to the commands it starts)                 *)
 (*   rnd   random generator: seed and number of draws since seeding        *)
 (*                                                                         *)
-(* One AWK program (harness/c14/program.go) has 16 modes ("run kinds"),    *)
+(* One AWK program (harness/c14/program.go) has 24 modes ("run kinds"),    *)
 (* selected by the variable `mode` given through Config.Vars; every mode   *)
 (* first prints a fingerprint of all the state it can see in BEGIN, then   *)
 (* does what its kind says.  Run(st, kind, cfg) is the transcription of    *)
@@ -28,6 +30,28 @@
 (*    sets from the Config, closeAll closes streams but leaves them in the *)
 (*    maps.  MC_Reuse checks that with the intended Clears this refines    *)
 (*    ExecSpec, and which clears are load-bearing.                         *)
+(*                                                                         *)
+(* What a run can do besides the original 16 kinds:                        *)
+(*  - read its standard input through each path: the main loop, plain      *)
+(*    getline (gl_plain), getline < "-" (gl_dash), getline var < "-"       *)
+(*    (gl_dashvar).  Every run is handed its OWN standard input (Config.   *)
+(*    Stdin): StdinOf(cfg) ends in a record that names the run (cfg.tag),  *)
+(*    so text read from an earlier run's input cannot pass for this run's. *)
+(*    A run reads its standard input through one path only, or through a   *)
+(*    second one after the first reached the end (how two half-read        *)
+(*    scanners share buffered input is nobody's promise and not modelled). *)
+(*  - end by `exit N` outside END and then fail in END: by a run-time      *)
+(*    error (exit_enderr, exitbegin) or by cancellation (exit_endcancel).  *)
+(*    Execute then returns status 0 and the error; N must not reach any    *)
+(*    later run.                                                           *)
+(*  - be called through Execute, ExecuteContext(Background), or            *)
+(*    ExecuteContext with a context that is cancelled (api "ctx") or       *)
+(*    expires (api "ctxdl") AFTER the call returned (the idiom `ctx,       *)
+(*    cancel := context.WithTimeout(..); defer cancel()`).  A run is       *)
+(*    governed by the context of its own call only.  Where a stale context *)
+(*    would show: a loop longer than one poll interval (p_func), a         *)
+(*    run-time error (reported as the context's error), a command being    *)
+(*    started (sys: system(), pipe: cmd | getline).                        *)
 (***************************************************************************)
 EXTENDS Csv, TLC
 
@@ -55,29 +79,60 @@ PrInit == [line |-> <<>>, nf |-> 0, nr |-> 0, fnr |-> 0, filename |-> <<>>, rsta
            outs |-> {}, ins |-> {},   \* names in the output / input stream maps
            hdr |-> <<>>,          \* CSV header names (<<>> = none)
            imode |-> ModeDefault, omode |-> "default",
-           status |-> 0, sp |-> 0, argc |-> 1, ctx |-> FALSE]
+           status |-> 0, sp |-> 0, argc |-> 1,
+           dash |-> [open |-> FALSE, rest |-> <<>>],   \* the scanner of getline < "-" and the records it still holds
+           stdinUsed |-> FALSE,   \* this run's standard input was handed to a scanner (set anew by every call)
+           mainEof |-> FALSE,     \* this run's main input was read to its end
+           ctx |-> [check |-> FALSE, done |-> "no"]]   \* governing context; done: "no", "canceled", "deadline"
 
 StInit == [vars |-> VarsInit, pr |-> PrInit, rnd |-> RndInit]
 
 \* ----------------------------------------------------------- configurations
 \* c0: zero Config, input on stdin, Execute.
-\* c1: Vars FS=":", OutputMode tsv, input from a file operand, ExecuteContext (never cancelled).
+\* c1: Vars FS=":", OutputMode tsv, input from a file operand, ExecuteContext with a context that is cancelled when
+\*     the call has returned (never while it runs, unless the run's kind cancels).
 \* c2: InputMode csv with header, input on stdin, Execute.
-Cfgs == { [name |-> "c0", fsvar |-> FALSE, omode |-> "default", imode |-> ModeDefault, src |-> "stdin", api |-> "exec"],
-          [name |-> "c1", fsvar |-> TRUE,  omode |-> "tsv",     imode |-> ModeDefault, src |-> "file",  api |-> "ctx"],
-          [name |-> "c2", fsvar |-> FALSE, omode |-> "default", imode |-> [m |-> "csv", hdr |-> TRUE], src |-> "stdin", api |-> "exec"] }
+\* c3: zero Config, input on stdin, ExecuteContext with a context whose deadline passes when the call has returned.
+\* c4: zero Config, input on stdin, ExecuteContext(context.Background()).
+\* tag: which run of the history this is; it only makes the run's standard input its own.
+Cfgs == { [name |-> "c0", fsvar |-> FALSE, omode |-> "default", imode |-> ModeDefault, src |-> "stdin", api |-> "exec", tag |-> 1],
+          [name |-> "c1", fsvar |-> TRUE,  omode |-> "tsv",     imode |-> ModeDefault, src |-> "file",  api |-> "ctx", tag |-> 1],
+          [name |-> "c2", fsvar |-> FALSE, omode |-> "default", imode |-> [m |-> "csv", hdr |-> TRUE], src |-> "stdin", api |-> "exec", tag |-> 1],
+          [name |-> "c3", fsvar |-> FALSE, omode |-> "default", imode |-> ModeDefault, src |-> "stdin", api |-> "ctxdl", tag |-> 1],
+          [name |-> "c4", fsvar |-> FALSE, omode |-> "default", imode |-> ModeDefault, src |-> "stdin", api |-> "ctxbg", tag |-> 1] }
+CfgNames == {c.name : c \in Cfgs}
 CfgNamed(nm) == CHOOSE c \in Cfgs : c.name = nm
+WithTag(cfg, n) == [cfg EXCEPT !.tag = n]
 
-Input(cfg) == CASE cfg.name = "c0" -> <<c_x, SP, c_y, LF, D5, SP, D6, LF>>
-                [] cfg.name = "c1" -> <<c_x, COLON, c_y, LF, D5, COLON, D6, LF>>
-                [] cfg.name = "c2" -> <<c_x, COMMA, c_y, LF, D5, COMMA, D6, LF>>
+\* the standard input handed to a run: two records and one that names the run
+TagField(cfg) == <<c_t>> \o IntStr(cfg.tag)
+StdinOf(cfg) == CASE cfg.name = "c0" -> <<c_x, SP, c_y, LF, D5, SP, D6, LF>> \o TagField(cfg) \o <<SP, D9, LF>>
+                  [] cfg.name = "c1" -> <<c_p, COLON, c_q, LF, D7, COLON, D8, LF>> \o TagField(cfg) \o <<COLON, D9, LF>>
+                  [] cfg.name = "c2" -> <<c_x, COMMA, c_y, LF, D5, COMMA, D6, LF>> \o TagField(cfg) \o <<COMMA, D9, LF>>
+                  [] cfg.name = "c3" -> <<c_x, SP, c_y, LF, D7, SP, D8, LF>> \o TagField(cfg) \o <<SP, D9, LF>>
+                  [] cfg.name = "c4" -> <<c_x, SP, c_y, LF, D3, SP, D4, LF>> \o TagField(cfg) \o <<SP, D9, LF>>
+InfContent == <<c_x, COLON, c_y, LF, D5, COLON, D6, LF>>   \* the file operand of c1
+MainInput(cfg) == IF cfg.src = "file" THEN InfContent ELSE StdinOf(cfg)
 InfName == <<c_i, c_n, c_f>>                      \* the harness substitutes the real path
 RfContent == <<c_r, D1, LF, c_r, D2, LF, c_r, D3, LF>>
 WfWritten == <<80, LF>>                          \* "P\n"
 StaleContent == <<c_s, c_t, c_a, c_l, c_e, LF>>   \* what a file holds when a write went to a dead stream
 
 Kinds == {"plain", "setglob", "setfs", "csvhdr", "setmodes", "openout", "exit3", "errfunc", "errforin", "cancel",
-          "rand", "srand5", "midfile", "match", "p_io", "p_func"}
+          "rand", "srand5", "midfile", "match", "p_io", "p_func",
+          "gl_plain", "gl_dash", "gl_dashvar",              \* standard input through getline / getline < "-" / getline var < "-"
+          "exit_enderr", "exitbegin", "exit_endcancel",     \* exit N outside END, then END fails
+          "sys", "pipe"}                                    \* a command is started: system(), cmd | getline
+\* kinds that cancel their own call: they need a context that can be cancelled whatever the configuration says
+CancelKinds == {"cancel", "exit_endcancel"}
+Errors == {"error", "canceled", "deadline"}
+ApiOf(kind, cfg) == IF kind \in CancelKinds /\ cfg.api \in {"exec", "ctxbg"} THEN "ctx" ELSE cfg.api
+\* how a run that makes its own context done ends: context.Canceled, or DeadlineExceeded for a deadline context
+OwnCtxErr(kind, cfg) == IF ApiOf(kind, cfg) = "ctxdl" THEN "deadline" ELSE "canceled"
+\* a context that is done governs the interpreter (never at the start of a run under ExecSpec)
+Governed(st) == st.pr.ctx.check /\ st.pr.ctx.done # "no"
+\* a run-time error: executeAll reports the context's error in its place when the governing context is done
+ErrStop(st) == IF Governed(st) THEN st.pr.ctx.done ELSE "error"
 
 \* --------------------------------------------------------- reading records
 Pieces(content, sep) ==
@@ -141,8 +196,8 @@ Fingerprint(st) ==
      RawChunk(PrintLine(st, <<FmtNum(st.vars.ofmt), <<c_q>>>>)) >>
 
 \* ------------------------------------------------------------- one run
-\* The run proceeds through phases; a phase result is [st, out, stop] with
-\* stop in {"", "exit", "error", "canceled"}.
+\* The run proceeds through phases (BEGIN, main loop, END); a phase result is
+\* [st, out, stop] with stop in {"", "exit"} \cup Errors.
 
 \* getline ln < name  on a file with the given content, not read before in this run
 GetlineFile(st, name, content) ==
@@ -153,7 +208,49 @@ GetlineFile(st, name, content) ==
            ret |-> IF sc.recs = <<>> THEN 0 ELSE 1,
            val |-> IF sc.recs = <<>> THEN <<>> ELSE sc.recs[1].line]
 
-BeginPhase(st0, kind) ==
+\* The main input is opened (by the main loop or by a plain getline, whichever comes first): the state
+\* afterwards and the records the scanner will yield.  A scanner left over from an earlier run would be
+\* read instead (it is at EOF or dead); standard input that another scanner of this run has read to its
+\* end yields nothing more.
+OpenMain(st, cfg) ==
+  LET noNew == st.pr.scanner \/ st.pr.mainEof
+      sc    == IF noNew \/ (cfg.src = "stdin" /\ st.pr.stdinUsed)
+               THEN [hdr |-> st.pr.hdr, recs |-> <<>>] ELSE Scan(st, MainInput(cfg))
+  IN [st |-> [st EXCEPT !.pr.hdr = sc.hdr,
+                        !.pr.filename = IF noNew THEN @ ELSE IF cfg.src = "file" THEN InfName ELSE <<MINUS>>,
+                        !.pr.fnr = IF noNew THEN @ ELSE 0,
+                        !.pr.stdinUsed = @ \/ (cfg.src = "stdin" /\ ~noNew)],
+      recs |-> sc.recs]
+
+\* getline < "-" / getline var < "-": the scanner named "-" is created on the run's standard input at the
+\* first call and keeps what it has not yet handed out
+NoRec == [line |-> <<>>, fields |-> <<>>]
+GetlineDash(st, cfg) ==
+  LET d  == st.pr.dash
+      op == IF d.open THEN [st |-> st, rest |-> d.rest]
+            ELSE LET sc == IF st.pr.stdinUsed THEN [hdr |-> st.pr.hdr, recs |-> <<>>] ELSE Scan(st, StdinOf(cfg))
+                 IN [st |-> [st EXCEPT !.pr.hdr = sc.hdr, !.pr.stdinUsed = TRUE], rest |-> sc.recs]
+  IN IF op.rest = <<>>
+     THEN [st |-> [op.st EXCEPT !.pr.dash = [open |-> TRUE, rest |-> <<>>]], ret |-> 0, rec |-> NoRec]
+     ELSE [st |-> [op.st EXCEPT !.pr.dash = [open |-> TRUE, rest |-> Tail(op.rest)]], ret |-> 1, rec |-> Head(op.rest)]
+
+\* while ((getline < "-") > 0) emit("gd", $0)
+RECURSIVE DashAll(_, _, _)
+DashAll(st, cfg, out) ==
+  LET gd == GetlineDash(st, cfg)
+  IN IF gd.ret = 0 THEN [st |-> gd.st, out |-> out]
+     ELSE DashAll([gd.st EXCEPT !.pr.line = gd.rec.line, !.pr.nf = Len(gd.rec.fields)], cfg,
+                  Append(out, Chunk("gd", gd.rec.line)))
+
+\* while ((getline) > 0) emit("gl", $0)   on the records of the main input
+RECURSIVE PlainAll(_, _, _, _)
+PlainAll(st, recs, j, out) ==
+  IF j > Len(recs) THEN [st |-> [st EXCEPT !.pr.scanner = FALSE, !.pr.mainEof = TRUE], out |-> out]
+  ELSE PlainAll([st EXCEPT !.pr.line = recs[j].line, !.pr.nf = Len(recs[j].fields), !.pr.nr = @ + 1, !.pr.fnr = @ + 1,
+                           !.pr.scanner = TRUE],
+                recs, j + 1, Append(out, Chunk("gl", recs[j].line)))
+
+BeginPhase(st0, kind, cfg) ==
   LET fp == Fingerprint(st0)
       st == [st0 EXCEPT !.rnd.idx = @ + 1]
   IN CASE kind = "setfs" ->
@@ -188,18 +285,27 @@ BeginPhase(st0, kind) ==
                            \o <<Chunk("rret", IntStr(gl.ret)), Chunk("rline", gl.val)>>,
                 stop |-> ""]
        [] kind = "p_func" ->
-            \* fact(5), a for-in sum, boom(1), a 600-iteration loop, match("zzab", /ab/)
-            [st |-> [st EXCEPT !.pr.rstart = 3, !.pr.rlength = 2],
-             out |-> fp \o <<Chunk("fact", <<D1, D2, D0>>), Chunk("forin", <<D3>>), Chunk("boom", <<D1>>),
-                             Chunk("loop", <<D6, D0, D0>>), Chunk("rstart", <<D3>>)>>,
-             stop |-> ""]
+            \* fact(5), a for-in sum, boom(1), a 600-iteration loop (longer than one poll interval of the
+            \* context: a done context that governs the interpreter ends the run there), match("zzab", /ab/)
+            LET pre == fp \o <<Chunk("fact", <<D1, D2, D0>>), Chunk("forin", <<D3>>), Chunk("boom", <<D1>>)>>
+            IN IF Governed(st) THEN [st |-> st, out |-> pre, stop |-> st.pr.ctx.done]
+               ELSE [st |-> [st EXCEPT !.pr.rstart = 3, !.pr.rlength = 2],
+                     out |-> pre \o <<Chunk("loop", <<D6, D0, D0>>), Chunk("rstart", <<D3>>)>>,
+                     stop |-> ""]
+       [] kind = "gl_plain" ->
+            LET om == OpenMain(st, cfg)
+                rd == PlainAll(om.st, om.recs, 1, fp)
+            IN [st |-> rd.st, out |-> rd.out, stop |-> ""]
+       [] kind = "gl_dash" ->
+            LET rd == DashAll(st, cfg, fp)
+            IN [st |-> rd.st, out |-> rd.out, stop |-> ""]
+       [] kind = "exitbegin" ->
+            [st |-> [st EXCEPT !.pr.status = 6], out |-> fp, stop |-> "exit"]
        [] OTHER -> [st |-> st, out |-> fp, stop |-> ""]
 
 \* the rules of the main loop applied to record number j of recs
-Stoppers == {"exit3", "errfunc", "errforin", "cancel"}
-
-RECURSIVE MainFrom(_, _, _, _, _, _)
-MainFrom(st, kind, recs, j, out, acc) ==       \* acc: running sum of $1 (p_func)
+RECURSIVE MainFrom(_, _, _, _, _, _, _)
+MainFrom(st, kind, cfg, recs, j, out, acc) ==       \* acc: running sum of $1 (p_func)
   IF j > Len(recs) THEN [st |-> [st EXCEPT !.pr.scanner = FALSE], out |-> out, stop |-> "", acc |-> acc]
   ELSE
     LET rc  == recs[j]
@@ -209,55 +315,85 @@ MainFrom(st, kind, recs, j, out, acc) ==       \* acc: running sum of $1 (p_func
         o1  == Append(out, Chunk("rec", IntStr(s1.pr.nr) \o <<SLASH>> \o IntStr(s1.pr.nf) \o <<SLASH>> \o f1))
     IN CASE kind = "setglob" ->
               MainFrom([s1 EXCEPT !.vars.g = <<c_g>> \o IntStr(s1.pr.nr), !.vars.ak = <<c_a>> \o IntStr(s1.pr.nr)],
-                       kind, recs, j + 1, o1, acc)
+                       kind, cfg, recs, j + 1, o1, acc)
          [] kind \in {"csvhdr", "p_io"} ->
               LET fb == FieldByName(s1, rc.fields, <<c_x>>)
-              IN IF fb.err THEN [st |-> s1, out |-> o1, stop |-> "error", acc |-> acc]
-                 ELSE MainFrom(s1, kind, recs, j + 1, Append(o1, Chunk("x", fb.val)), acc)
+              IN IF fb.err THEN [st |-> s1, out |-> o1, stop |-> ErrStop(s1), acc |-> acc]
+                 ELSE MainFrom(s1, kind, cfg, recs, j + 1, Append(o1, Chunk("x", fb.val)), acc)
          [] kind = "openout" ->
-              MainFrom([s1 EXCEPT !.pr.outs = @ \cup {"wf"}], kind, recs, j + 1, o1, acc)
-         [] kind = "exit3" ->
-              [st |-> [s1 EXCEPT !.pr.status = 3], out |-> o1, stop |-> "exit", acc |-> acc]
+              MainFrom([s1 EXCEPT !.pr.outs = @ \cup {"wf"}], kind, cfg, recs, j + 1, o1, acc)
+         [] kind \in {"exit3", "exit_enderr", "exit_endcancel"} ->
+              [st |-> [s1 EXCEPT !.pr.status = CASE kind = "exit3" -> 3 [] kind = "exit_enderr" -> 4 [] OTHER -> 5],
+               out |-> o1, stop |-> "exit", acc |-> acc]
          [] kind \in {"errfunc", "errforin"} ->
-              [st |-> [s1 EXCEPT !.pr.sp = 1], out |-> o1, stop |-> "error", acc |-> acc]
+              [st |-> [s1 EXCEPT !.pr.sp = 1], out |-> o1, stop |-> ErrStop(s1), acc |-> acc]
          [] kind = "cancel" ->
-              [st |-> [s1 EXCEPT !.pr.sp = 1], out |-> o1, stop |-> "canceled", acc |-> acc]
+              [st |-> [s1 EXCEPT !.pr.sp = 1], out |-> o1, stop |-> OwnCtxErr(kind, cfg), acc |-> acc]
          [] kind = "p_func" ->
-              MainFrom(s1, kind, recs, j + 1, o1, acc + NumOf(f1))
-         [] OTHER -> MainFrom(s1, kind, recs, j + 1, o1, acc)
+              MainFrom(s1, kind, cfg, recs, j + 1, o1, acc + NumOf(f1))
+         [] OTHER -> MainFrom(s1, kind, cfg, recs, j + 1, o1, acc)
+
+\* the END block (runs after a normal main loop and after exit outside END)
+EndPhase(st, kind, cfg, out0, acc) ==
+  LET o1 == Append(out0, Chunk("endNR", IntStr(st.pr.nr)))
+  IN CASE kind = "p_func" ->             \* emit("sum", s); exit       (a bare exit leaves the status alone)
+            [st |-> st, out |-> Append(o1, Chunk("sum", IntStr(acc))), stop |-> "exit"]
+       [] kind = "gl_dashvar" ->         \* ln = ""; r = (getline ln < "-")
+            LET gd == GetlineDash(st, cfg)
+            IN [st |-> gd.st, out |-> o1 \o <<Chunk("gvr", IntStr(gd.ret)), Chunk("gv", gd.rec.line)>>, stop |-> ""]
+       [] kind = "sys" ->                \* r = system("exit 3")       (a command started under a done context fails)
+            IF Governed(st) THEN [st |-> st, out |-> o1, stop |-> st.pr.ctx.done]
+            ELSE [st |-> st, out |-> Append(o1, Chunk("sysrc", <<D3>>)), stop |-> ""]
+       [] kind = "pipe" ->               \* ln = ""; r = ("echo hi" | getline ln); emit("pipe", r ":" ln); close("echo hi")
+            \* (the command's output is read by a scanner in the current input mode: with a CSV header the one row is the header)
+            IF Governed(st) THEN [st |-> st, out |-> o1, stop |-> st.pr.ctx.done]
+            ELSE LET sc == Scan(st, <<c_h, c_i, LF>>)
+                     rt == IF sc.recs = <<>> THEN 0 ELSE 1
+                     vl == IF sc.recs = <<>> THEN <<>> ELSE sc.recs[1].line
+                 IN [st |-> [st EXCEPT !.pr.hdr = sc.hdr],
+                     out |-> Append(o1, Chunk("pipe", IntStr(rt) \o <<COLON>> \o vl)), stop |-> ""]
+       [] kind \in {"exit_enderr", "exitbegin"} ->      \* z = 1 / (NR - NR)
+            [st |-> st, out |-> o1, stop |-> ErrStop(st)]
+       [] kind = "exit_endcancel" ->     \* j = 0; while (1) spin(j++)      spin(7) cancels the run's own context
+            [st |-> [st EXCEPT !.pr.sp = 1], out |-> o1, stop |-> OwnCtxErr(kind, cfg)]
+       [] OTHER -> [st |-> st, out |-> o1, stop |-> ""]
 
 \* Run the program in mode `kind` from state st (already prepared for the run: see ExecSpec / ExecCode).
+\* When the call has returned, the context it was given (if any) is cancelled / expires.
 Run(st, kind, cfg) ==
-  LET bp == BeginPhase(st, kind)
-      \* the main input: a scanner left over from an earlier run would be read instead (it is at EOF or dead)
-      sc == IF bp.st.pr.scanner THEN [hdr |-> bp.st.pr.hdr, recs |-> <<>>] ELSE Scan(bp.st, Input(cfg))
-      s1 == [bp.st EXCEPT !.pr.hdr = sc.hdr,
-                          !.pr.filename = IF sc.recs = <<>> /\ bp.st.pr.scanner THEN @
-                                          ELSE IF cfg.src = "file" THEN InfName ELSE <<MINUS>>,
-                          !.pr.fnr = IF bp.st.pr.scanner THEN @ ELSE 0]
-      mp == MainFrom(s1, kind, sc.recs, 1, bp.out, 0)
-      endout == IF mp.stop \in {"error", "canceled"} THEN mp.out
-                ELSE Append(mp.out, Chunk("endNR", IntStr(mp.st.pr.nr)))
-                     \o (IF kind = "p_func" THEN <<Chunk("sum", IntStr(mp.acc))>> ELSE <<>>)
-  IN [st  |-> mp.st,
-      res |-> [out |-> endout,
-               status |-> IF mp.stop \in {"error", "canceled"} THEN 0 ELSE mp.st.pr.status,
-               err |-> IF mp.stop \in {"error", "canceled"} THEN mp.stop ELSE "none"]]
+  LET bp == BeginPhase(st, kind, cfg)
+      mp == IF bp.stop # "" THEN [st |-> bp.st, out |-> bp.out, stop |-> bp.stop, acc |-> 0]    \* exit in BEGIN: no input is read
+            ELSE LET om == OpenMain(bp.st, cfg) IN MainFrom(om.st, kind, cfg, om.recs, 1, bp.out, 0)
+      ep == IF mp.stop \in Errors THEN [st |-> mp.st, out |-> mp.out, stop |-> mp.stop]
+            ELSE EndPhase(mp.st, kind, cfg, mp.out, mp.acc)
+      failed == ep.stop \in Errors
+      cx == ep.st.pr.ctx
+  IN [st  |-> [ep.st EXCEPT !.pr.ctx.done = IF cx.check /\ cx.done = "no"        \* the context of this very call
+                                            THEN (IF ApiOf(kind, cfg) = "ctxdl" THEN "deadline" ELSE "canceled")
+                                            ELSE @],
+      res |-> [out |-> ep.out,
+               status |-> IF failed THEN 0 ELSE ep.st.pr.status,
+               err |-> IF failed THEN ep.stop ELSE "none"]]
 
 \* ------------------------------------------------- start of a run, two ways
-\* what setExecuteConfig overwrites from the Config on every run
-ApplyCfg(st, cfg) ==
+\* what setExecuteConfig and Execute / ExecuteContext overwrite on every run (unsetsCtx: a call without a
+\* context of its own -- Execute, ExecuteContext(Background) -- switches the checking of the previous call's off)
+ApplyCfg(st, kind, cfg, unsetsCtx) ==
   [st EXCEPT !.pr.imode = cfg.imode, !.pr.omode = cfg.omode,
              !.pr.argc = IF cfg.src = "file" THEN 2 ELSE 1,
-             !.pr.ctx = (cfg.api = "ctx"),
+             !.pr.stdinUsed = FALSE, !.pr.mainEof = FALSE,
+             !.pr.ctx = IF ApiOf(kind, cfg) \in {"ctx", "ctxdl"} THEN [check |-> TRUE, done |-> "no"]
+                        ELSE IF unsetsCtx THEN [check |-> FALSE, done |-> "no"] ELSE @,
              !.vars.fs = IF cfg.fsvar THEN <<COLON>> ELSE @]
 
 \* The property: nothing of the per-run state carries over.
-ExecSpec(st, kind, cfg) == Run(ApplyCfg([st EXCEPT !.pr = PrInit], cfg), kind, cfg)
+ExecSpec(st, kind, cfg) == Run(ApplyCfg([st EXCEPT !.pr = PrInit], kind, cfg, TRUE), kind, cfg)
 
 \* The code: resetCore clears the named fields (the record state is one group, as are the streams);
-\* after the run closeAll closes all streams (they stay in the maps, dead).
-CoreFields == {"scanner", "ins", "outs", "sp", "record", "match", "status", "hdr", "argc"}
+\* after the run closeAll closes all streams (they stay in the maps, dead).  "dash": the scanners map
+\* (the scanner of getline < "-" has no stream of its own); "ctx": Execute and
+\* ExecuteContext(Background) set checkCtx to false (ExecuteContext with a real context installs it in any case).
+CoreFields == {"scanner", "ins", "outs", "sp", "record", "match", "status", "hdr", "argc", "dash", "ctx"}
 ResetCore(pr, clears) ==
   [pr EXCEPT !.scanner = IF "scanner" \in clears THEN FALSE ELSE @,
              !.ins     = IF "ins" \in clears THEN {} ELSE @,
@@ -272,8 +408,10 @@ ResetCore(pr, clears) ==
              !.rlength = IF "match" \in clears THEN 0 ELSE @,
              !.status  = IF "status" \in clears THEN 0 ELSE @,
              !.hdr     = IF "hdr" \in clears THEN <<>> ELSE @,
-             !.argc    = IF "argc" \in clears THEN 0 ELSE @]
-ExecCode(st, kind, cfg, clears) == Run(ApplyCfg([st EXCEPT !.pr = ResetCore(@, clears)], cfg), kind, cfg)
+             !.argc    = IF "argc" \in clears THEN 0 ELSE @,
+             !.dash    = IF "dash" \in clears THEN [open |-> FALSE, rest |-> <<>>] ELSE @]
+ExecCode(st, kind, cfg, clears) ==
+  Run(ApplyCfg([st EXCEPT !.pr = ResetCore(@, clears)], kind, cfg, "ctx" \in clears), kind, cfg)
 
 ResetVarsOp(st) == [st EXCEPT !.vars = VarsInit]
 ResetRandOp(st) == [st EXCEPT !.rnd = RndInit]
